@@ -182,6 +182,29 @@ def _check_mutators(part: Part, tier, seed):
                     if mu.mutation_count(tree, module) != n_full:
                         part.violation("mutation_count ignores the cap", "count-capped", {"module": name, "config": label},
                                        target=f"{MU}:FirstOrderMutator.mutation_count")
+        # the controller (what the generator and the assertion generator talk to): the reported count is the size of the full
+        # enumeration before, between and after (capped) enumerations, and the enumeration yields what the mutator yields
+        from pynguin.assertion.mutation_analysis.controller import MutationController
+        for cap, reorder in [(-1, False), (0, False), (1, False), (n_full // 3, True), (n_full - 1, False), (n_full + 5, True)]:
+            part.case()
+            label = f"controller:cap={cap},reorder={reorder}"
+            ctl = MutationController(FirstOrderMutator(ops, maximum_mutants=cap, sampling_seed=seed, reorder=reorder), tree, module)
+            counts = [ctl.mutant_count()]
+            yielded = 0
+            for _mod, muts in ctl.create_mutants():
+                yielded += 1        # (no count while a mutant is applied in place: that is not a state the count is defined for)
+            counts.append(ctl.mutant_count())
+            if not intact(label):
+                return
+            want_n = n_full if cap < 0 else min(cap, n_full)
+            if yielded != want_n:
+                part.violation("the controller's enumeration yields exactly the mutator's (capped) mutants", "controller-size",
+                               {"module": name, "config": label, "got": yielded, "want": want_n},
+                               target="pynguin.assertion.mutation_analysis.controller:MutationController.create_mutants")
+            if any(c != n_full for c in counts):
+                part.violation("the reported mutant count equals the number of mutants the full enumeration yields",
+                               "controller-count", {"module": name, "config": label, "counts(before,after)": counts, "full": n_full},
+                               target="pynguin.assertion.mutation_analysis.controller:MutationController.mutant_count")
         # higher-order mutants: the original is restored after each one
         for strat in (FirstToLastHOMStrategy(), EachChoiceHOMStrategy(), BetweenOperatorsHOMStrategy(), RandomHOMStrategy()):
             part.case()
